@@ -24,7 +24,9 @@ No hook in the repository is used.  Control is gained from outside:
 
 Exactly one thread runs at any time.  A run is a function of (configuration, list of
 thread choices): choosing a thread lets it perform the action it is parked at and run
-to its next scheduling point.  Choosing a finished or blocked thread is a no-op.  When
+to its next scheduling point.  Choosing a finished or blocked thread is a no-op.  A thread
+blocked in a TIMED acquire can also be chosen as -(tid + 1): time passes for this waiter, its
+acquire returns False (threading.Lock protocol; release of an unlocked lock raises RuntimeError).  When
 the choice list is exhausted the default policy continues (stay on the current thread
 if it can move, else the lowest enabled one).  Every run is guarded by a step budget.
 """
@@ -54,6 +56,8 @@ class Sched:
         self.back = threading.Semaphore(0)
         self.pending = {}       # tid -> kind it is parked at
         self.pending_obj = {}   # tid -> the lock it wants (kind 'acq')
+        self.timed = {}         # tid -> its pending acquire is timed / non-blocking
+        self.expire = set()     # tids whose timed acquire the scheduler lets time out
         self.after_release = {}  # tid -> released a lock and has not executed a line of _send_and_receive since
         self.locks = []         # every cooperative lock created during the run
         self.finished = set()
@@ -68,12 +72,13 @@ class Sched:
     def me(self):
         return self.ident[threading.get_ident()]
 
-    def park(self, kind, obj=None):
+    def park(self, kind, obj=None, timed=False):
         tid = self.ident.get(threading.get_ident())
         if tid is None:         # not a scheduled thread (set-up code): no scheduling
             return None
         self.pending[tid] = kind
         self.pending_obj[tid] = obj
+        self.timed[tid] = timed
         self.back.release()
         if not self.go[tid].acquire(timeout=self.wait_s):
             raise Abort()
@@ -114,7 +119,12 @@ class Sched:
                 return
         i, steps, last = 0, 0, None
         while len(self.finished) < len(tids):
-            enabled = [t for t in tids if t not in self.finished and not blocked(t, self.pending.get(t))]
+            live = [t for t in tids if t not in self.finished]
+            normal = [t for t in live if not blocked(t, self.pending.get(t))]
+            # a thread blocked in a TIMED (or non-blocking) acquire has one more way to go on: the
+            # scheduler lets time pass for it and its acquire returns False; choice -(tid + 1)
+            expiries = [-(t + 1) for t in live if t not in normal and self.timed.get(t)]
+            enabled = normal + expiries
             if not enabled:
                 self.status = 'deadlock'
                 break
@@ -124,13 +134,16 @@ class Sched:
                 if c not in enabled:
                     continue
             else:
-                c = last if last in enabled else enabled[0]
+                c = last if last in normal else enabled[0]
             steps += 1
             if steps > self.budget:
                 self.status = 'budget'
                 break
             self.enabled_log.append((tuple(enabled), c))
             self.taken.append(c)
+            if c < 0:
+                c = -c - 1
+                self.expire.add(c)
             last = c
             self.go[c].release()
             if not self.back.acquire(timeout=self.wait_s):
@@ -156,9 +169,16 @@ class CoopLock:
         s.locks.append(self)
 
     def acquire(self, blocking=True, timeout=-1):
-        tid = self.s.park('acq', self)
+        """threading.Lock.acquire: untimed -> waits until free, True; non-blocking or timed ->
+        False when the lock is held and (the scheduler decides that) the time is up"""
+        timed = (not blocking) or (timeout is not None and timeout >= 0)
+        tid = self.s.park('acq', self, timed)
         if tid is None:
             return True
+        if tid in self.s.expire:
+            self.s.expire.discard(tid)
+            self.s.did(tid, 'atmo')
+            return False
         if self.owner is not None:
             raise HarnessError('scheduler resumed a blocked thread')
         self.owner = tid
@@ -167,6 +187,7 @@ class CoopLock:
         return True
 
     def release(self):
+        """threading.Lock.release: any thread may release a locked lock; RuntimeError when unlocked"""
         tid = self.s.park('rel')
         if tid is None:
             return
@@ -223,9 +244,10 @@ def bmc_answer(p, serial):
 
 
 class ScriptedSocket:
-    def __init__(self, s, stale=()):
+    def __init__(self, s, stale=(), lose=()):
         self.s = s
         self.stale = set(stale)   # datagram numbers answered with an unrelated frame first
+        self.lose = set(lose)     # datagram numbers whose reply is lost (recvfrom times out)
         self.wire = []      # ('tx', tid, reqidx, parsed, serial) / ('rx', tid, serial)
         self.pending = []   # (serial, datagram)
         self.nrx = 0
@@ -250,6 +272,9 @@ class ScriptedSocket:
         p = parse_tx(pdu)
         self.nrx += 1
         self.wire.append(('tx', tid, self.reqidx.get(tid, 0), p, serial))
+        if serial in self.lose:
+            self.s.did(tid, 'snd')
+            return len(pdu)
         if serial in self.stale:
             # an unrelated frame first: same netfn/cmd, a stale sequence number, another payload
             old = dict(p, seq=(1 if p['seq'] == 0 else p['seq'] - 1))
@@ -375,7 +400,8 @@ def keepalive_loop(R, rmcp, n, func, args=()):
 def run_schedule(cfg, choices, fine=False, budget=None):
     """cfg = {'threads': [{'kind': 'raw'|'msg'|'keepalive', 'reqs': [[netfn, cmd], ...]}, ...],
               'nsn0': int, 's0': int, 'auth': 0|2|4, 'max_retries': int, 'active': bool,
-              'stale': [datagram numbers the BMC answers with an unrelated frame before the reply]}
+              'stale': [datagram numbers the BMC answers with an unrelated frame before the reply],
+              'lose': [datagram numbers whose reply is lost: recvfrom raises socket.timeout]}
     -> observation dict (JSON-able)."""
     import pyipmi
     from pyipmi import Target
@@ -441,7 +467,7 @@ def _run(cfg, fine, s, R, SESS, Session, Target, create_request_by_name):
 
     intf = SRmcp(keep_alive_interval=1, max_retries=cfg.get('max_retries', 0))
     intf.host, intf.port = 'bmc', 623
-    sock = ScriptedSocket(s, cfg.get('stale', ()))
+    sock = ScriptedSocket(s, cfg.get('stale', ()), cfg.get('lose', ()))
     intf._sock = sock
     if not isinstance(getattr(intf, 'transaction_lock', None), CoopLock):
         intf.transaction_lock = CoopLock(s)      # (the constructor did not go through threading.Lock)
